@@ -40,6 +40,16 @@ func guard(rep *verifutil.Report, r *Replica, activity string, stateOnly bool, f
 	if stateOnly {
 		before.dbAll, after.dbAll = "", ""
 	}
+	// a NEW private view of the canonical head, committed without any write, must reproduce the
+	// canonical roots: whatever the activity left in the node's memory must not reach it
+	if cs, err := r.AppState.ForCheck(r.Head().Height()); err == nil {
+		cs.Precommit()
+		rep.Count("fresh_view_root_checks", 1)
+		if cs.State.Root() != before.root || cs.IdentityState.Root() != before.idRoot {
+			rep.Violation("speculative-work-changed:root of the next private view:"+activity, fmt.Sprintf("after %s on replica %s at height %d a fresh check view of the head, precommitted without writes, has roots %x / %x, the canonical state %x / %x",
+				activity, r.Name, r.Head().Height(), cs.State.Root(), cs.IdentityState.Root(), before.root, before.idRoot), nil)
+		}
+	}
 	if before != after {
 		what := "stored state (db keys of the state trees)"
 		switch {
@@ -75,6 +85,13 @@ func sampleView(w *World, as *appstate.AppState) map[string]string {
 	return m
 }
 
+type heldView struct {
+	as   *appstate.AppState
+	ver  int64
+	root common.Hash
+	keep int
+}
+
 func diffSample(a, b map[string]string) string {
 	for k, v := range a {
 		if b[k] != v {
@@ -106,6 +123,7 @@ func TestVerifC13Chain(t *testing.T) {
 		s := NewScenario(w, verifutil.NewRng(seed, 13))
 		s.Hostile, s.MaxTxs = 10, 5
 		rec := map[uint64]map[string]string{} // height -> values recorded at commit time
+		held := map[uint64]*heldView{}
 		for _, b := range w.Blocks {
 			_ = b
 		}
@@ -121,15 +139,66 @@ func TestVerifC13Chain(t *testing.T) {
 			res := s.Step()
 			w.beforeDistribute = nil
 			if len(res.Errs) > 0 {
+				if e, ok := res.Errs[R.Name]; ok && len(res.Errs) == 1 {
+					// only the replica that did the speculative work disagrees with the block
+					rep.Violation("speculative-work-changed:later-block-refused:"+ErrClass(e), fmt.Sprintf("block %d built by %s is accepted by every replica except %s, the one the speculative activities ran on: %v",
+						res.Block.Height(), res.Proposer.Name, R.Name, e), DescribeBlock(res.Block))
+				}
 				rep.Note("scenario %d stopped at step %d: block refused (%v)", sc, i, res.Errs)
 				break
 			}
 			b := res.Block
 			h := b.Height()
 			rec[h] = sampleView(w, R.AppState)
+			// ---- views handed out BEFORE this block was applied are read only now (rpc / mempool /
+			// ceremony readers keep the memoised head view while the next block is committed)
+			for hh, v := range held {
+				rep.Eval(1)
+				rep.Count("held_view_reads", 1)
+				var got map[string]string
+				var ver int64
+				var root common.Hash
+				if p, _ := verifutil.Catch(func() { got, ver, root = sampleView(w, v.as), v.as.State.Version(), v.as.State.Root() }); p != nil {
+					rep.Violation("held-view-differs:panic", fmt.Sprintf("a read-only view of height %d taken while it was the head panics when read after %d further block(s): %v", hh, h-hh, p), nil)
+				} else if d := diffSample(rec[hh], got); d != "" {
+					rep.Violation("held-view-differs:values", fmt.Sprintf("a read-only view of height %d taken while it was the head, first read after %d further block(s) were committed, differs from what was committed at %d: %s", hh, h-hh, hh, d), nil)
+				} else if ver != v.ver || root != v.root {
+					rep.Violation("held-view-differs:version-or-root", fmt.Sprintf("a read-only view of height %d reported version %d root %x when taken, version %d root %x after %d further block(s)", hh, v.ver, v.root, ver, root, h-hh), nil)
+				}
+				if h-hh >= uint64(v.keep) {
+					delete(held, hh)
+				}
+			}
+			if i%3 == 0 {
+				if v, err := R.AppState.Readonly(h); err == nil {
+					held[h] = &heldView{as: v, ver: v.State.Version(), root: v.State.Root(), keep: s.R.Range(1, 3)}
+				}
+			}
 			// ---- (b) speculative activities around the canonical state
 			switch i % 4 {
 			case 0:
+				if i%8 == 0 {
+					// a proposal that deploys a never-seen WASM code and is then thrown away (the tx
+					// is known to this node only and leaves its pool again)
+					tx := w.WasmDeployTx(s.R, w.God)
+					if err := R.TxPool.AddInternalTx(tx); err == nil {
+						included := false
+						guard(rep, R, "ProposeBlock(wasm deploy, discarded)", true, func() {
+							if p := R.Chain.ProposeBlock(nil); p != nil && p.Block != nil && p.Block.Body != nil {
+								for _, t := range p.Block.Body.Transactions {
+									included = included || t.Hash() == tx.Hash()
+								}
+							}
+						})
+						if included {
+							rep.Count("wasm_deploys_in_discarded_proposals", 1)
+						}
+						R.TxPool.Remove(tx)
+					} else {
+						rep.Count("wasm_deploy_not_accepted_by_pool", 1)
+					}
+					break
+				}
 				guard(rep, R, "ProposeBlock", true, func() { R.Chain.ProposeBlock(nil) })
 			case 1:
 				guard(rep, R, "ForCheck+writes+Precommit+Commit", false, func() {
